@@ -104,7 +104,13 @@ static void vf_reseed(void) {
 
 /* Run `stmt` under RLC_TRY; thrown = 1 if it raised. Clears the sticky code afterwards. */
 /* thrown := 0, or the error code delivered to this handler (ERR_CAUGHT when an inner handler swallowed it) */
-#define VF_TRY(thrown, stmt) do { err_t vf_e_ = (err_t)0; thrown = 0; RLC_TRY { stmt; } RLC_CATCH(vf_e_) { thrown = vf_e_ ? (int)vf_e_ : (int)ERR_CAUGHT; } core_get()->code = RLC_OK; } while (0)
+/* Every library call of a harness goes through VF_TRY. Besides catching, it checks a context invariant the error
+ * mechanism relies on: when the call returns normally, the innermost try frame must again be the caller's (here: ours);
+ * a callee that leaves its own RLC_TRY block by `return` keeps ctx->last pointing into its dead stack frame, and the
+ * next throw jumps through it (memory-safety: counted by C08's re-runs too). */
+static int vf_ctx_dangling = 0;
+#define VF_TRY(thrown, stmt) do { err_t vf_e_ = (err_t)0; thrown = 0; RLC_TRY { stmt; if (core_get()->last != &_this) { vf_ctx_dangling++; core_get()->last = &_this; } } RLC_CATCH(vf_e_) { thrown = vf_e_ ? (int)vf_e_ : (int)ERR_CAUGHT; } core_get()->code = RLC_OK; \
+	if (vf_ctx_dangling) { vf_ctx_dangling = 0; vf_fail(NULL, "dangling error context: the call returned with ctx->last pointing into its own dead stack frame, outside any live try block (%s)", #stmt); } } while (0)
 
 /* Error *printing* (message + backtrace_symbols on every throw) is not part of any property and costs
  * ~100 us per throw; harnesses are linked with -Wl,--wrap=err_full_msg,--wrap=err_simple_msg. */
